@@ -375,15 +375,34 @@ def end_to_end_c06(v, wd, r, tier):
     hostaddrs = [{"host": ["a", "root"], "v": 4, "addr": "10.0.0.1"}, {"host": ["ns1", "ex", "com"], "v": 4, "addr": "7.7.7.7"},
                  {"host": ["a", "gtld"], "v": 4, "addr": "9.9.9.9"}, {"host": ["ns", "evil"], "v": 4, "addr": "8.8.8.8"},
                  {"host": ["ns1", "ex", "com"], "v": 6, "addr": "::7"}, {"host": ["ns2", "other"], "v": 6, "addr": "::9"}]
+    NS = lambda owner, host: {"name": owner, "type": "NS", "data": dotted(host), "target": host, "ttl": 300}
+    Ar = lambda host, a: {"name": host, "type": "A", "data": a, "target": [], "ttl": 300}
     n = 300 if tier == "quick" else 3000
     for i in range(n):
         table = []
+        staircase = i % 3 == 0
         for addr in ("10.0.0.1", "7.7.7.7", "9.9.9.9", "8.8.8.8"):
             for q in (["www", "ex", "com"], ["t", "ex", "com"], ["u", "other"], ["ns1", "ex", "com"], ["a", "gtld"], ["ns2", "other"]):
                 for t in ("A", "AAAA", "TXT"):
                     rep = {"rcode": r.choice([0, 0, 0, 3]), "aa": r.random() < 0.5, "answers": [], "authority": [], "additional": []}
                     for _k in range(r.randint(0, 6)):
                         rep[r.choice(["answers", "answers", "authority", "additional"])].append(r.choice(univ))
+                    if staircase and q[-1] == "com":
+                        # a plausible referral at each depth (so that deep exchanges happen), spiced with NS sets of the
+                        # depth already reached, of shallower depths and of non-ancestors, each with glue
+                        rep = {"rcode": 0, "aa": False, "answers": [], "authority": [], "additional": []}
+                        ref = {"10.0.0.1": (["com"], ["a", "gtld"], "9.9.9.9"), "9.9.9.9": (["ex", "com"], ["ns1", "ex", "com"], "7.7.7.7")}.get(addr)
+                        if ref and (addr == "10.0.0.1" or r.random() < 0.6):
+                            rep["authority"].append(NS(ref[0], ref[1]))
+                            rep["additional"].append(Ar(ref[1], ref[2]))
+                        elif not ref and r.random() < 0.6:
+                            rep["aa"] = True
+                            rep["answers"] += [x for x in univ if x["name"] == q and x["type"] == t][:2]
+                        same = {"10.0.0.1": [], "9.9.9.9": ["com"], "7.7.7.7": ["ex", "com"], "8.8.8.8": ["ex", "com"]}[addr]
+                        for owner in r.sample([same, same[1:], [], ["other"], ["www", "ex", "com"]], r.randint(0, 3)):
+                            host = r.choice([["ns", "evil"], ["a", "gtld"], ["ns1", "ex", "com"]])
+                            rep[r.choice(["authority", "authority", "answers"])].append(NS(owner, host))
+                            rep["additional"].append(Ar(host, {"ns.evil": "8.8.8.8", "a.gtld": "9.9.9.9", "ns1.ex.com": "7.7.7.7"}[".".join(host)]))
                     table.append({"addr": addr, "qname": q, "qtype": t, "reply": rep})
         qs = []
         for _q in range(2):
@@ -392,8 +411,22 @@ def end_to_end_c06(v, wd, r, tier):
                 q["faults"] = {str(r.randint(0, 3)): r.choice(HEADER_FAULTS)}
             qs.append(q)
         scs.append(scenario([hints], [], "recursive", qs, table=table, default={"rcode": 2}, tag="", hostaddrs=hostaddrs))
+    # directed: at depth 2 and at depth 3 the server in use hands out an NS set of the depth already reached (and its
+    # host answers), nothing else
+    www = ["www", "ex", "com"]
+    evil_answer = {"rcode": 0, "aa": True, "answers": [{"name": www, "type": "A", "data": "6.6.6.6", "target": [], "ttl": 60}],
+                   "authority": [], "additional": []}
+    ref = lambda owner, host, a: {"rcode": 0, "aa": False, "answers": [], "authority": [NS(owner, host)], "additional": [Ar(host, a)]}
+    t2 = [{"addr": "10.0.0.1", "qname": www, "qtype": "A", "reply": ref(["com"], ["a", "gtld"], "9.9.9.9")},
+          {"addr": "9.9.9.9", "qname": www, "qtype": "A", "reply": ref(["com"], ["ns", "evil"], "8.8.8.8")},
+          {"addr": "8.8.8.8", "qname": www, "qtype": "A", "reply": evil_answer}]
+    t3 = [t2[0], {"addr": "9.9.9.9", "qname": www, "qtype": "A", "reply": ref(["ex", "com"], ["ns1", "ex", "com"], "7.7.7.7")},
+          {"addr": "7.7.7.7", "qname": www, "qtype": "A", "reply": ref(["ex", "com"], ["ns", "evil"], "8.8.8.8")}, t2[2]]
+    for tab in (t2, t3):
+        scs.append(scenario([hints], [], "recursive", [{"name": www, "type": "A"}], table=tab, default={"rcode": 2}, tag="same depth",
+                            hostaddrs=hostaddrs))
     run_scenarios(v, "C06", wd, "e2e", scs)
-    v.notes["end_to_end_resolutions"] = n * 2
+    v.notes["end_to_end_resolutions"] = n * 2 + 2
 
 
 # ---------------------------------------------------------------------------
@@ -552,8 +585,15 @@ def alias_scenarios(r, n):
         if shape == "branch" and k >= 3:
             links.append((1, k))
         auth_lan = r.random() < 0.6
+        # now and then the whole graph lives upstream and comes back in one reply (bulk, below): chains, branches and
+        # loops that do and do not pass through the question name, met by the resolver in a single answer section
+        allup = k <= 8 and r.random() < 0.2
+        if allup:
+            auth_lan = False
         for (a, b) in links:
             where = r.choice(["zone", "zone", "root", "cache", "up"]) if k <= 8 else r.choice(["zone", "zone", "zone", "cache"])
+            if allup:
+                where = "up"
             rec = rr(names[a], "CNAME", dotted(names[b]), names[b])
             if where == "zone" and auth_lan:
                 zone_links.append(rec)
@@ -593,7 +633,10 @@ def alias_scenarios(r, n):
         # upstream: every alias it holds, one per reply (well-behaved, A1), and the final record; or (bulk) the whole
         # chain it holds from the asked name on in one reply, in chain order - loops included, as a recursive upstream
         # or an attacker would send them
-        bulk = r.random() < 0.35
+        bulk = allup or r.random() < 0.35
+        if allup:
+            mode = r.choice(["recursive", "forwarding"])
+            fw = r.choice(["up", "none"])
         table = []
         if mode != "auth":
             for addr in ("10.0.0.1", "10.9.9.9"):
